@@ -40,7 +40,7 @@ def _c13_family(f):
 
 REGISTRY = {
     "C13": {
-        "rules": [order.rule_requested_order, memo.rule_info_memo_key, memo.rule_sibling_guard_agreement, memo.rule_operator_orientation, envs.rule_env_exponent, 
+        "rules": [order.rule_requested_order, memo.rule_info_memo_key, memo.rule_sibling_guard_agreement, memo.rule_operator_orientation, memo.rule_density_orientation, envs.rule_env_exponent, 
             P(optflow.rule_option_delivery, opts=("normalized",), modules=("quimb.tensor",), rule="opt-deliver[normalized]", floor=15,
               description="from every function that accepts `normalized`, each call whose resolved callee (all candidates) accepts "
                           "`normalized` receives a value derived from the caller's own (or an explicit literal): an omitted "
@@ -189,7 +189,7 @@ REGISTRY = {
     },
     "C09": {
         "rules": [
-            registries.rule_compress_registry_1d, registries.rule_full_span, registries.rule_centre_shift, exponent.rule_sum_exponents,
+            registries.rule_compress_registry_1d, registries.rule_full_span, registries.rule_centre_shift, exponent.rule_sum_exponents, memo.rule_density_orientation,
             P(dmrg.rule_sweep_memory, sites=[("quimb.tensor.tn1d.compress", "tensor_network_1d_compress_fit", ("f_sweep",), "prepare")], rule="sweep-memory[fit]"),
             P(optflow.rule_option_delivery, opts=("max_bond", "cutoff"), modules=("quimb.tensor.tn1d",), rule="cap-delivery[1d]", floor=40),
             P(registries.rule_mode_total, specs=[
